@@ -42,6 +42,23 @@ pub struct FileSpec {
 pub struct Case {
     pub texts: Vec<(String, String)>,
     pub files: Vec<FileSpec>,
+    /// 0: the transport accepts every write whole; else index+1 into SHORT_WRITES (bytes accepted per write call)
+    #[serde(default)]
+    pub short_write: u8,
+}
+
+pub const SHORT_WRITES: &[usize] = &[1, 7, 1460, 4096, 8191, 8192, 8193, 16000];
+
+pub fn short_write_strategy() -> BoxedStrategy<u8> {
+    prop_oneof![2 => Just(0u8), 1 => 1u8..=SHORT_WRITES.len() as u8].boxed()
+}
+
+pub fn short_write_bytes(i: u8) -> usize {
+    if i == 0 {
+        0
+    } else {
+        SHORT_WRITES[(i as usize - 1) % SHORT_WRITES.len()]
+    }
 }
 
 pub struct C15;
@@ -181,6 +198,8 @@ fn send_form(case: &Case, prev_boundary: &str) -> Result<(Sent, Vec<Part>), Outc
         Ok(f) => f,
         Err(e) => return Err(Outcome::fail("C15:build-failed", format!("{e:?}"))),
     };
+    // a transport may accept fewer bytes than offered: the form on the wire is the same
+    let _short = crate::transport::short_writes(short_write_bytes(case.short_write));
     let (_guard, net) = serve_scripts(vec![ok_response()]);
     let prepared = match attohttpc::post("http://origin.test/upload").proxy_settings(no_proxy()).body(form).try_prepare() {
         Ok(p) => p,
@@ -258,13 +277,14 @@ non-trivial = >= 2 parts with a file, or data containing a delimiter look-alike,
 
     fn strategy(_tier: Tier) -> BoxedStrategy<Case> {
         prop_oneof![
-            1 => Just(Case { texts: vec![], files: vec![] }),
-            30 => (proptest::collection::vec((name_strategy(), text_value()), 0..8), proptest::collection::vec(file_strategy(), 0..6)).prop_map(|(texts, files)| Case { texts, files }),
+            1 => Just(Case { texts: vec![], files: vec![], short_write: 0 }),
+            30 => (proptest::collection::vec((name_strategy(), text_value()), 0..8), proptest::collection::vec(file_strategy(), 0..6), short_write_strategy()).prop_map(|(texts, files, short_write)| Case { texts, files, short_write }),
         ]
         .boxed()
     }
 
     fn check(case: &Case, ctx: &mut Ctx) -> Outcome {
+        ctx.label_if(case.short_write != 0, "short-writing-transport");
         let mut prev = "AaBbCcDdEeFfGgHh".to_string();
         let mut total = 0;
         let mut boundaries = vec![];
